@@ -176,7 +176,7 @@ def det_run(ctx, binp, args, seed):
 
 def run_determinism(ctx, prop, tier, seed, binp, workdir):
     race = ctx["build_race"]()
-    n, depth = (20, 60) if tier == "quick" else (150, 150)
+    n, depth = (40, 60) if tier == "quick" else (200, 150)
     obs = os.path.join(workdir, "det.ndjson")
     text, rc = det_run(ctx, race, ["determinism", "-n", str(n), "-depth", str(depth), "-out", obs], seed)
     violations = []
